@@ -416,23 +416,54 @@ func buildOpts(o optT) []compression.Option {
 	return opts
 }
 
+// countingByteReader hands out one byte per Read, so that a decoder never consumes input beyond
+// the end of its stream and trailing bytes can be detected.
+type countingByteReader struct {
+	b []byte
+	i int
+}
+
+func (c *countingByteReader) Read(p []byte) (int, error) {
+	if c.i >= len(c.b) {
+		return 0, io.EOF
+	}
+	if len(p) == 0 {
+		return 0, nil
+	}
+	p[0] = c.b[c.i]
+	c.i++
+	return 1, nil
+}
+func (c *countingByteReader) ReadByte() (byte, error) {
+	if c.i >= len(c.b) {
+		return 0, io.EOF
+	}
+	c.i++
+	return c.b[c.i-1], nil
+}
+
+// decodeBody decodes by Content-Encoding; the body must be exactly one encoded stream
+// (a truncated stream or bytes after its end are a decoding failure).
 func decodeBody(ce string, raw []byte) ([]byte, bool) {
 	switch strings.ToLower(strings.TrimSpace(ce)) {
 	case "", "identity":
 		return raw, true
 	case "gzip":
-		zr, err := gzip.NewReader(bytes.NewReader(raw))
+		src := &countingByteReader{b: raw}
+		zr, err := gzip.NewReader(src)
 		if err != nil {
 			return nil, false
 		}
+		zr.Multistream(false)
 		b, err := io.ReadAll(zr)
-		if err != nil {
+		if err != nil || src.i != len(raw) {
 			return nil, false
 		}
 		return b, true
 	case "br":
-		b, err := io.ReadAll(brotli.NewReader(bytes.NewReader(raw)))
-		if err != nil {
+		src := &countingByteReader{b: raw}
+		b, err := io.ReadAll(brotli.NewReader(src))
+		if err != nil || src.i != len(raw) {
 			return nil, false
 		}
 		return b, true
@@ -485,6 +516,10 @@ func realRun(k *caseT, withMW bool, nw []int) respT {
 		return respT{Kind: "E", PanicV: err.Error()}
 	}
 	out := respT{Kind: "R", Status: resp.StatusCode, Raw: raw, Outs: res.Outs}
+	// writes made after a program panic (by the recovery middleware) are not observed: pad
+	for len(out.Outs) < nw[len(nw)-1] {
+		out.Outs = append(out.Outs, outT{})
+	}
 	keys := make([]string, 0, len(resp.Header))
 	for hk := range resp.Header {
 		if hk == "Date" || hk == "Content-Length" {
@@ -519,6 +554,13 @@ func dryRun(k *caseT) ([]primT, []int) {
 	r.ServeHTTP(f, req)
 	f.sync()
 	f.closeGroup()
+	total := 0
+	for _, p := range f.prims {
+		if p.K == "B" || p.K == "C" {
+			total++
+		}
+	}
+	f.nw[len(k.Prog)] = total // last slot: number of write-like primitives of the whole exchange
 	return f.prims, f.nw
 }
 
